@@ -31,6 +31,8 @@ class SubContract:
             for i in range(lay.n):
                 it.store(Ptr(args[0].r, args[0].o + lay.cell * i), Poly.const((o >> (S["rb"] * i)) & ((1 << S["rb"]) - 1)), lay.cell)
             self.calls.append(dict(X=X, Y=Y, pre_ok=(-L <= x - y < L)))
+            if not (-L <= x - y < L) and getattr(self, "strict", True):
+                raise ContractViolation("Scalar::sub called with X - Y = %d outside [-l, l) (X=%d, Y=%d)" % (x - y, x, y))
             return None
         xv, yv = lay.value(X), lay.value(Y)
         sho = [None] * lay.n; shu = None
